@@ -17,7 +17,7 @@ import itertools
 NAME_ALPHABET = (None, 'x', 'y', 'z')
 # every dimension size is distinct from every other and from the stacking sizes,
 # so a names entry can be matched to "its" array dimension by size alone
-SHAPES = {1: (2,), 2: (2, 3), 3: (2, 3, 6)}
+SHAPES = {0: (), 1: (2,), 2: (2, 3), 3: (2, 3, 6)}
 LEVEL_SIZE = (4, 5, 7)            # axis size of level 0 (innermost), 1, 2
 LEVEL_NAME = ('L0', 'L1', 'L2')   # partition name of level 0, 1, 2
 
